@@ -42,6 +42,19 @@ def main():
     sp.loader.exec_module(mod)
     from vf.mon import tripwire
 
+    if spec.get("hostile_sys_modules"):
+        # what an application may legitimately keep in sys.modules: a lazily loaded module, a settings proxy, a module without a file
+        # whose attribute access is the program's own code (both runs have them; only a tracer would touch them)
+        import types as _types
+
+        class LazyModule(_types.ModuleType):
+            def __getattr__(self, name):
+                tripwire.note("module.__getattr__:" + name, self.__name__)
+                raise AttributeError(name)
+
+        sys.modules["vf_lazy_plugin"] = LazyModule("vf_lazy_plugin")
+        sys.modules["vf_settings_proxy"] = tripwire.GA("sys.modules-proxy")
+        os.environ["MONKEYTYPE_TRACE_MODULES"] = name  # (set in both runs: the environment is part of the compared interpreter state)
     report = {"mode": spec["mode"]}
     out = io.StringIO()
     faults = spec.get("faults", {})
@@ -128,8 +141,13 @@ def main():
         sys.setprofile(pre)
         callbacks = {"n": 0}
 
+        dflt = None
+        if spec.get("default_filter"):
+            # the shipped default filter with a module allow-list (it reads the environment at every call)
+            from monkeytype.config import default_code_filter as dflt
+
         def flt(code):
-            ok = code.co_filename == path
+            ok = bool(dflt(code)) if dflt is not None else code.co_filename == path
             if ok:
                 callbacks["n"] += 1
             return ok
